@@ -186,7 +186,12 @@ def run(prop, tier, seed, args):
         for r, ob in pending_replays:
             nat = next(it) if "params" in ob else {"outcome": "not-materialised", "detail": ob.get("materialize_error", "")}
             fd = fw.match_finding(findings, ob["ident"])
-            reproduced = nat["outcome"] in ("violation", "exception", "timeout")
+            # a counter-model is reproduced when the real code fails the contract natively: a violated check for a check
+            # obligation; an escaping exception / a hang for an "unexpected exception" obligation
+            if ob["kind"] == "exc":
+                reproduced = nat["outcome"] in ("exception", "timeout")
+            else:
+                reproduced = nat["outcome"] in ("violation", "timeout") or (nat["outcome"] == "exception" and not nat["detail"].startswith("TypeError: "))
             data = {"kind": "harness", "obligation": ob["ident"], "harness": r["harness"], "case": r["case"], "params": ob.get("params"),
                     "overrides": r.get("overrides") or getattr(mod, "NATIVE_OVERRIDES", {}),
                     "model": ob.get("model"), "observed": nat, "solver": f"{ob['backend']}: sat (counter-model above); note={ob['note']}"}
